@@ -76,14 +76,18 @@ PROPS["C07"] = dict(
     assumptions=["terms are well-formed (C02's wf)", "Term::hash is a function of the Term::eq class (C02)"],
 )
 
+import extras  # noqa: E402
+
 PROPS["C10"] = dict(
     level="proof",
+    extra=[extras.c10_miri],
     runs=[dict(bin="c10")],
     quick=dict(n=400, shards=16),
     thorough=dict(n=20000, shards=128, run_timeout=3000, coq_case_timeout=3000),
     trusted_base=[
         "ownership model coq/C10/Model.v of inmem/src/index.rs (SimpleTermIndex: t2i keys own string allocations, i2t entries point into them or, for quoted triples, own deep copies), of Clone (derived vs rebuilt), Drop, moves and growth (hand-written)",
         "hook SimpleTermIndex::verif_audit / verif_term_index (cfg sophia_verif) reports, per index, whether i2t[i] borrows from the key mapped to i; the harness compares it with the model's audit",
+        "thorough tier additionally runs fixed clone/drop/insert scenarios under Miri (harness/src/bin/c10_miri.rs) as a correspondence aid",
         "NOT covered: undefined behaviour outside this ownership model (std collections, unwrap_unchecked in the iterators, allocator behaviour); the model says which memory is read, a sanitizer would be needed to observe the read itself",
     ],
     assumptions=["Box<str> contents do not move when the owning SimpleTerm value is moved or the hash table is rehashed", "MownStr::clone copies the pointer of a borrowed string and allocates for an owned one"],
